@@ -181,10 +181,31 @@ def run(tier):
     replay_cases(ctx, sim, "simulated deep declarators")
     for c in rnd.sample(allc, 3):
         ctx.sample(dict(context=c["ctx"], declaration=" ".join(c["toks"]), expected=c["nodes"][-1]["type"]))
+    long_units(ctx, tier, rnd, allc)
     monitor(ctx, tier, rnd)
     ctx.cov["exhaustive"] = True
     ctx.assumptions += ["Chain in spec/CDecl.tla is C99 6.7.5.1-3 verbatim; TypeDecl.align / Typename.align are outside the projection"]
     return ctx.finish()
+
+
+def long_units(ctx, tier, rnd, cases):
+    """The same declarations far from the start of the input: units of 20-400 declarations (their contexts included)
+    must give, declaration by declaration, the tree each gives alone."""
+    from .. import longunit
+    snippets = []
+    for c in rnd.sample(cases, min(len(cases), 6000 if tier == "quick" else 60000)):
+        if c["ctx"] == "typedef" or "typedef" in c["toks"]:
+            continue            # a typedef of x would clash with the objects named x of the other parts
+        for label, src, get in render(c):
+            snippets.append(src[len(PRELUDE):])
+    units = longunit.make_units(snippets, rnd, 160 if tier == "quick" else 1500)
+    n = 0
+    for cnt, bad in pmap(longunit.check_unit, [(PRELUDE, u) for u in units], chunk=2):
+        n += cnt
+        for sig, text in bad:
+            ctx.fail("long unit: " + sig, dict(kind="unit", text=text))
+    ctx.count(len(units), nontrivial=len(units), traces=n)
+    ctx.note("long_units", dict(units=len(units), declarations=n))
 
 
 def monitor(ctx, tier, rnd):
